@@ -53,7 +53,7 @@ def _use_tables_in_modules():
 def run(rep):
     import dtcwt
     from pytorch_wavelets.dtcwt import coeffs
-    from pytorch_wavelets import _verif
+    from ..hooks import _verif
     names = LEVEL1 + QSHIFT
     d = scratch()
     repo_dir = os.path.join(REPO, "pytorch_wavelets", "dtcwt", "data")
